@@ -16,6 +16,7 @@ open CaddyModel.C10
 #print axioms leftmost_is_leftmost
 #print axioms rightmost_is_rightmost
 #print axioms strict_never_picks_trusted
+#print axioms client_ip_is_peer_or_header_element
 #print axioms elements_are_per_value
 #print axioms trusted_fields
 #print axioms trusted_prior_kept_and_appended
